@@ -82,7 +82,7 @@ class DictWriter:
 
         # Before writing the dict, doublecheck once again that all of its elements are correctly typed.
         parser = NativeParser()
-        parser.parse_values(source_dict)
+        _retype_values(parser, source_dict)
 
         # If mode is set to 'a' (append) and target_file exists:
         # Read the existing file and merge the new dict into the existing.
@@ -114,6 +114,19 @@ class DictWriter:
             _ = f.write(string)
 
         return
+
+
+def _retype_values(parser: NativeParser, arg: MutableMapping[Any, Any] | MutableSequence[Any]) -> None:
+    """Cast string values spelling a number, boolean or none to their native type. Other strings are kept as they are."""
+    for key in list(arg.keys()) if isinstance(arg, MutableMapping) else range(len(arg)):
+        item = arg[key]
+        if isinstance(item, MutableMapping | MutableSequence):
+            _retype_values(parser, item)
+        elif isinstance(item, str):
+            value = parser.parse_value(item)
+            if not isinstance(value, str):
+                arg[key] = value
+    return
 
 
 def create_target_file_name(
